@@ -260,3 +260,59 @@ def exhaustive(K, depth, N=None, allow_d07=True):
 
     rec(Sim(K, N), [], 0)
     return [("x%d-%d" % (K, i), ["cfg %d %d" % (K, N)] + [fmt(o) for o in ops]) for i, ops in enumerate(out)]
+
+
+def _thread_script(rng, t, K, L, nodes_per_thread=3):
+    """a per-thread script that respects the static preconditions (online/offline alternate, own fresh nodes)"""
+    on, out, used = False, [], 0
+    nodes = [t + K * i for i in range(nodes_per_thread)]
+    for _ in range(L):
+        opts = []
+        if on:
+            opts += ["qs"] * 4 + ["off", "qb"]
+        else:
+            opts += ["on"] * 3
+        if used < nodes_per_thread:
+            opts += ["ab"] * 2
+        opts += ["run"] * 2
+        o = rng.choice(opts)
+        if o == "on":
+            on = True; out.append("on %d" % t)
+        elif o == "off":
+            on = False; out.append("off %d" % t)
+        elif o == "ab":
+            out.append("ab %d %d" % (t, nodes[used])); used += 1
+        else:
+            out.append("%s %d" % (o, t))
+    return out
+
+
+def model_cases(rng, quick):
+    """cases for the extracted model only: exhaustive exploration of all interleavings of the fine-grained model
+    (every invariant and theorem statement is checked in every state) and the randomised vector-clock check of C11_hb"""
+    cases = []
+    for i in range(6 if quick else 60):
+        K = rng.choice([2, 2, 3])
+        L = rng.choice([3, 4]) if K == 2 else rng.choice([2, 3])
+        if not quick and K == 2:
+            L += rng.randrange(2)
+        ls = ["cfg %d %d explore" % (K, 3 * K)]
+        for t in range(K):
+            ls += _thread_script(rng, t, K, L + rng.randrange(2))
+        cases.append(("fg%d" % i, ls))
+    fixed = [
+        ["on 1", "qs 1", "qs 1", "qs 1", "on 2", "qs 2", "qs 2", "off 2", "ab 0 0", "run 0", "run 0", "run 0"],
+        ["on 1", "qs 1", "qs 1", "qs 1", "qs 1", "on 2", "qs 2", "off 2", "on 2", "off 2", "ab 0 0", "run 0", "run 0", "run 0"],
+        ["on 0", "qs 0", "ab 0 0", "qs 0", "qs 0", "qs 0", "run 0", "on 1", "qs 1", "qs 1", "qs 1", "off 1"],
+    ]
+    n = 3000 if quick else 20000
+    for i, f in enumerate(fixed):
+        cases.append(("hb%d" % i, ["cfg 3 3 hb %d" % n] + f))
+    for i in range(2 if quick else 16):
+        K = 3
+        ls = ["cfg %d %d hb %d" % (K, 3 * K, n)]
+        for t in range(K):
+            ls += [l for l in _thread_script(rng, t, K, 5 + rng.randrange(3)) if not l.startswith("qb")]
+        cases.append(("hbr%d" % i, ls))
+    return cases
+
